@@ -40,6 +40,7 @@ type fAlt struct {
 
 type fileHandle struct {
 	f        *FileObj
+	sizeAt   *Term  // for a path-based stat result of a lagging reader: the instant it describes
 	alts     []fAlt // the files this handle may refer to (path chosen by a symbolic condition); guards are exclusive
 	appendMd bool
 	inPlace  bool
@@ -64,6 +65,9 @@ type FS struct {
 	tornAll  *Term // ... everything but the newline
 	nEff     int
 	nFileFd  int
+	prevDie  *Term // the previous process's death / progress variable (a writer observed by a reader)
+	lagStat  bool  // path-based os.Stat of the reader sees an earlier instant than its later open
+	nInstant int
 	proc     int
 	initCells []*LineCell
 	effT     []effRec
@@ -173,6 +177,7 @@ func (w *World) fsInit() {
 		},
 		ergoPath + ".zzHistoryPreserved": w.fsHistoryPreserved,
 		ergoPath + ".zzLockDiscipline": w.fsLockDiscipline,
+		ergoPath + ".zzReaderInstants": func(ex *Exec, c *callCtx) Value { w.fs.lagStat = true; return nil },
 		ergoPath + ".zzNoTornWrites": func(ex *Exec, c *callCtx) Value {
 			if w.fs.die != nil {
 				ex.assume(And(Not(w.fs.torn), Not(w.fs.tornAll)))
@@ -332,7 +337,17 @@ func (w *World) notExistErr() Value {
 func (w *World) fsStat(ex *Exec, c *callCtx) Value {
 	fa := w.filesOf(c.args[0])
 	ex1 := altsExists(fa)
-	info := Ref1(IfaceT{Typ: fileInfoType(), V: Ref1(AddrT{Obj: w.infoObjH(&fileHandle{f: fa[0].f, alts: fa})})})
+	h := &fileHandle{f: fa[0].f, alts: fa}
+	if w.fs.lagStat && w.fs.die == nil && w.fs.prevDie != nil {
+		// a reader's path lookups happen one after the other while the writer goes on: this stat
+		// sees the store after k effects of the writer, k <= what the reader's later open will see
+		w.fs.nInstant++
+		k := ex.nondet(fmt.Sprintf("world.instant!%d", w.fs.nInstant), "nat").(TimeV).T
+		ex.assume(ILe(k, w.fs.prevDie))
+		ex1 = Subst(ex1, w.fs.prevDie, k)
+		h.sizeAt = k
+	}
+	info := Ref1(IfaceT{Typ: fileInfoType(), V: Ref1(AddrT{Obj: w.infoObjH(h)})})
 	return TupleV{E: []Value{MergeV(ex1, info, NilRef()), MergeV(ex1, NilRef(), w.notExistErr())}}
 }
 
@@ -376,7 +391,11 @@ func (w *World) lookupInvokeFS(t types.Type, method string) modelFn {
 	case "Size":
 		return func(ex *Exec, c *callCtx) Value {
 			h := w.fs.handles[c.args[0].(RefV).Alts[0].Tgt.(AddrT).Obj]
-			return IntV{Ite(h.nonEmpty(), BVC(1, 64), BVC(0, 64)), true}
+			ne := h.nonEmpty()
+			if h.sizeAt != nil {
+				ne = Subst(ne, w.fs.prevDie, h.sizeAt)
+			}
+			return IntV{Ite(ne, BVC(1, 64), BVC(0, 64)), true}
 		}
 	case "IsDir":
 		return func(ex *Exec, c *callCtx) Value { return BoolV{False} }
@@ -799,6 +818,9 @@ func (w *World) fsParseErrInfo(ex *Exec, c *callCtx) Value {
 func (w *World) fsProcBegin(ex *Exec, c *callCtx) Value {
 	fs := w.fs
 	fs.proc++
+	if fs.die != nil {
+		fs.prevDie = fs.die
+	}
 	fs.reads, fs.effT = nil, nil // lock discipline is judged per process
 	w.lockEvs = nil
 	w.lockHeld = False
